@@ -96,4 +96,10 @@ CLAIMS = {
         "note": "the model is a u16 bit set built from contains() observations only (no assumption on the bit layout)",
         "technique": "runtime monitoring: exhaustive law checking against a bit-set model",
     },
+    "C16": {
+        "text": "For each of the five adapters the target library renders the converted style and an independent SGR interpreter reads it back: every colour value in every slot, every palette pair and every effect set are enumerated (factorised), plus seeded random styles.  Exploration with the factorised finite space covered completely.  termcolor's dropped strikethrough is a recorded known finding (F13).",
+        "design_ref": "7 C16, 8.8, 6 F11-F13",
+        "note": "trusts refmodel::sgr and the third-party libraries' own renderers; the expressibility table is an assumption taken from their public APIs",
+        "technique": "runtime monitoring: round trip through the target library's renderer + reference SGR interpreter, exhaustive factorised enumeration",
+    },
 }
